@@ -130,3 +130,133 @@ for _tag in ("hhea", "vhea"):
     CONTRACTS["ufo2ft.outlineCompiler:BaseOutlineCompiler._setupTable_hhea_or_vhea#" + _tag].runtime = Runtime(
         _hhea_cases(_tag == "vhea"), _hhea_build(_tag), call=lambda fn, a: fn(a["self"], a["tag"])
     )
+
+
+# =====================================================================================================
+# setupTable_VORG: the default origin plus the records reproduce every glyph's vertical origin
+import z3  # noqa: E402
+
+from pyvc import ty as T  # noqa: E402
+from pyvc.api import cls, trusted  # noqa: E402
+from pyvc.core import Val, fresh, fresh_name, lift  # noqa: E402
+
+from pyvc.api import SPECFNS, specfn  # noqa: E402
+
+_RT_OTF = [None]
+
+
+@specfn(INT, opaque=True, g=Ref("GlyphV"))
+def vertical_origin(g):
+    """the glyph's vertical origin as ufo2ft computes it (opaque in the logic; natively the real helper)"""
+    from ufo2ft.outlineCompiler import _getVerticalOrigin
+
+    return _getVerticalOrigin(_RT_OTF[0], getattr(g, "_obj", g))
+
+
+def _vo_model(ex, st, args, kwargs, node):
+    """_getVerticalOrigin(otf, glyph): an integer that depends on the glyph (and on tables that VORG building does
+    not touch) only — summary of the 8-line helper"""
+    return Val(INT, ex.spec_decl(SPECFNS["vertical_origin"])(lift(args[1])))
+
+
+def _gsv_values(ex, st, self, args, kwargs, node):
+    return ex.call_method(ex.read_field(st, self, "glyphs"), "values", [], {}, st, node)
+
+
+def _gsv_items(ex, st, self, args, kwargs, node):
+    return ex.call_method(ex.read_field(st, self, "glyphs"), "items", [], {}, st, node)
+
+
+cls("GlyphV", fields={"name": STR}, notes="glyph object as VORG sees it (identity only)")
+cls("GlyphSetV", fields={"glyphs": Dict(STR, Ref("GlyphV"))}, methods={"values": _gsv_values, "items": _gsv_items},
+    views={"glyphs": lambda o: dict(o)}, notes="self.allGlyphs: name -> glyph")
+
+
+def _counter(ex, st, args, kwargs, node):
+    """collections.Counter(iterable): .vals = the distinct values; len() = their number; most_common(1)[0][0] is one
+    of them (assumed; 'a most frequent one' is not needed for the property)"""
+    from pyvc import models
+
+    seq = models.materialize(ex, args[0])
+    c = ex.new_object(st, "CounterV")
+    s = lift(seq)
+    ex.write_field(st, c, "seq", seq, node)
+    return c
+
+
+def _counter_len(ex, st, self):
+    s = lift(ex.read_field(st, self, "seq"))
+    n = z3.Int(fresh_name("ndistinct"))
+    i, j = z3.Int(fresh_name("ci")), z3.Int(fresh_name("cj"))
+    ln = z3.Length(s)
+    st.assume(z3.And(n >= 0, n <= ln))
+    st.assume((n == 0) == (ln == 0))
+    # n <= 1  <=>  all entries equal
+    st.assume((n <= 1) == z3.ForAll([i, j], z3.Implies(z3.And(0 <= i, i < ln, 0 <= j, j < ln), s[i] == s[j])))
+    return Val(INT, n)
+
+
+def _most_common(ex, st, self, args, kwargs, node):
+    s = lift(ex.read_field(st, self, "seq"))
+    w = z3.Int(fresh_name("mc"))
+    ex.safety(st, z3.Length(s) > 0, "IndexError", node)
+    st.assume(z3.And(0 <= w, w < z3.Length(s)))
+    cnt = z3.Int(fresh_name("cnt"))
+    return Val(List(Tuple(INT, INT)), z3.Unit(Tuple(INT, INT).sort().mk(s[w], cnt)))
+
+
+cls("CounterV", fields={"seq": List(INT)}, methods={"most_common": _most_common}, length=_counter_len)
+CLASSES_VORG_TABLE = cls("table_VORG", fields={"majorVersion": INT, "minorVersion": INT, "VOriginRecords": Dict(STR, INT), "defaultVertOriginY": INT, "numVertOriginYMetrics": INT}, dynamic=True)
+cls("OutlineCompilerV", fields={"otf": Ref("TTFont"), "tables": Set(STR), "allGlyphs": Ref("GlyphSetV")}, repo="ufo2ft.outlineCompiler:BaseOutlineCompiler")
+
+_VT = "self.otf['VORG']"
+contract(
+    "ufo2ft.outlineCompiler:BaseOutlineCompiler.setupTable_VORG",
+    props=["C04"],
+    params={"self": Ref("OutlineCompilerV")},
+    requires=["'VORG' in self.tables", "len(self.allGlyphs.glyphs) > 0"],
+    ensures={
+        # what a reader reconstructs (record if present, else the default) is every glyph's own origin
+        "origins": f"all(({_VT}.VOriginRecords[g] if g in {_VT}.VOriginRecords else {_VT}.defaultVertOriginY) == vertical_origin(self.allGlyphs.glyphs[g]) for g in self.allGlyphs.glyphs)",
+        "records-only-for-glyphs": f"all(g in self.allGlyphs.glyphs for g in {_VT}.VOriginRecords)",
+        "minimal": f"all({_VT}.VOriginRecords[g] != {_VT}.defaultVertOriginY for g in {_VT}.VOriginRecords)",
+        "count": f"{_VT}.numVertOriginYMetrics == len({_VT}.VOriginRecords)",
+        "version": f"{_VT}.majorVersion == 1 and {_VT}.minorVersion == 0",
+    },
+    canaries={"no-records": f"len({_VT}.VOriginRecords) == 0"},
+    models={"ufo2ft.outlineCompiler._getVerticalOrigin": _vo_model, "collections.Counter": _counter},
+    loops={
+        "for (glyphName, glyph) in self.allGlyphs.items()": Loop(
+            index="i", seq="K",
+            invariants={
+                "done": f"all(({_VT}.VOriginRecords[K[a]] if K[a] in {_VT}.VOriginRecords else {_VT}.defaultVertOriginY) == vertical_origin(self.allGlyphs.glyphs[K[a]]) for a in range(i))",
+                "only": f"all(any(K[a] == g for a in range(i)) and {_VT}.VOriginRecords[g] != {_VT}.defaultVertOriginY for g in {_VT}.VOriginRecords)",
+                "default-kept": f"{_VT}.defaultVertOriginY == old_default",
+            },
+        )
+    },
+    ghost_vars={"old_default": (INT, "0")},
+    ghost={"vorg.defaultVertOriginY = vorg_count.most_common(1)[0][0]": ["old_default = vorg.defaultVertOriginY"]},
+)
+
+
+def _vorg_cases(rng, n):
+    out = []
+    for k in range(n):
+        d = {"glyphs": rtlib.rand_glyphs(rng, n=rng.randint(1, 5), vertical=True), "vertical": True, "info": dict(_VINFO)}
+        if k % 3 == 0:  # most glyphs share an explicit origin that differs from the OS/2 fallback; one glyph has none
+            names = list(d["glyphs"])
+            for nm in names:
+                d["glyphs"][nm]["lib"] = {"public.verticalOrigin": 800}
+            d["glyphs"][names[-1]].pop("lib", None)
+        out.append(d)
+    return out
+
+
+def _vorg_build(d):
+    comp = rtlib.outline_compiler(d, "otf", upto=("head", "hmtx", "hhea", "maxp", "OS2", "vmtx"))
+    _RT_OTF[0] = comp.otf
+    return {"self": comp}
+
+
+CONTRACTS["ufo2ft.outlineCompiler:BaseOutlineCompiler.setupTable_VORG"].runtime = Runtime(_vorg_cases, _vorg_build, call=lambda fn, a: fn(a["self"]))
